@@ -271,8 +271,8 @@ def applyCodes : List Tok → Stamp → Stamp → Stamp
   | Tok.lit _ :: r, t, st => applyCodes r t st
 
 theorem readLoop_printTime (f : List Tok) (t : Stamp) (ht : Fits t) (hf : ∀ c ∈ codeList f, c ∈ fullCodes)
-    (pre : Str) (st : Stamp) :
-    readLoop (outPositions f pre.length) (pre ++ printTime f t) st = some (applyCodes f t st) := by
+    (pre suf : Str) (st : Stamp) :
+    readLoop (outPositions f pre.length) (pre ++ (printTime f t ++ suf)) st = some (applyCodes f t st) := by
   induction f generalizing pre st with
   | nil => rfl
   | cons tk r ih =>
@@ -281,25 +281,31 @@ theorem readLoop_printTime (f : List Tok) (t : Stamp) (ht : Fits t) (hf : ∀ c 
       have hmem : (w, l) ∈ fullCodes := hf _ (by simp [codeList])
       have hlen := zpad_length w (fieldVal t w l) (fieldVal_lt t ht w l hmem).1 (fieldVal_lt t ht w l hmem).2
       simp only [outPositions, printTime, readLoop, applyCodes]
-      have hslice : ((pre ++ (zpad w (fieldVal t w l) ++ printTime r t)).drop pre.length).take w
+      have hslice : ((pre ++ ((zpad w (fieldVal t w l) ++ printTime r t) ++ suf)).drop pre.length).take w
           = zpad w (fieldVal t w l) := by
-        rw [List.drop_left, List.take_left' hlen]
+        rw [List.drop_left, List.append_assoc, List.take_left' hlen]
       rw [hslice, fillMember_zpad st t w l hmem]
       have := ih (fun c hc => hf c (by simp [codeList, hc])) (pre ++ zpad w (fieldVal t w l)) (setField st t l)
-      simp only [List.length_append, hlen, List.append_assoc] at this
+      simp only [List.length_append, hlen, List.append_assoc] at this ⊢
       exact this
     | lit c =>
       simp only [outPositions, printTime, applyCodes]
       have := ih (fun c hc => hf c (by simpa [codeList] using hc)) (pre ++ [c]) st
-      simp only [List.length_append, List.length_singleton, List.append_assoc, List.singleton_append] at this
+      simp only [List.length_append, List.length_singleton, List.append_assoc, List.singleton_append, List.cons_append] at this ⊢
       exact this
 
-/-- `readTimestamp f (str(t))` for a lossless format: the fields named by the format, in format order -/
-theorem readTimestamp_printTime (f : List Tok) (h : Lossless f) (t : Stamp) (ht : Fits t) :
-    readTimestamp f (printTime f t) = some (applyCodes f t epoch) := by
+/-- `readTimestamp f (str(t) + suffix)` for a lossless format: the fields named by the format; what follows
+the printed stamp (the `Z` of a GPX time) is ignored -/
+theorem readTimestamp_printTime_suffix (f : List Tok) (h : Lossless f) (t : Stamp) (ht : Fits t) (suf : Str) :
+    readTimestamp f (printTime f t ++ suf) = some (applyCodes f t epoch) := by
   unfold readTimestamp
   rw [precompile_eq f h]
-  exact readLoop_printTime f t ht h.1 [] epoch
+  exact readLoop_printTime f t ht h.1 [] suf epoch
+
+theorem readTimestamp_printTime (f : List Tok) (h : Lossless f) (t : Stamp) (ht : Fits t) :
+    readTimestamp f (printTime f t) = some (applyCodes f t epoch) := by
+  have := readTimestamp_printTime_suffix f h t ht []
+  simpa using this
 
 /-- does the format contain a code with letter `l`? -/
 def hasL (f : List Tok) (l : Char) : Bool := (codeList f).any (fun c => c.2 == l)
